@@ -20,6 +20,10 @@ def run(ctx):
     else:
         ctx.exhaustive("Limiter_MC", "Limiter_MC", timeout=1800, coverage=True)
     ctx.exhaustive("Limiter_MC", "Limiter_MC_global", timeout=600)
+    ctx.exhaustive("Limiter_MC", "Limiter_MC_gc", timeout=900)
+    b = vf.tlc("Limiter_MC", cfg="Limiter_MC_gcbug", timeout=600)
+    if b.ok or b.violated != "Inv_C15_Budget":
+        raise vf.MachineryError("sensitivity run did not reject the collection of buckets that have not refilled")
     g = vf.tlc("Limiter_MC", cfg="Limiter_Gen", workers=1, timeout=900)
     if not g.ok:
         raise vf.MachineryError("stimulus generation failed\n" + g.out[-2000:])
@@ -33,7 +37,8 @@ def run(ctx):
     json.dump(stims, open(sp, "w"))
     ctx.sample({"tlc_arrival_history": stims[len(stims) // 3]})
     t1 = ctx.path("lim.ndjson")
-    ctx.driver(drv, ["-out", t1, "-stim", sp, "-random", 40 if ctx.quick else 600, "-conc", 150 if ctx.quick else 2000])
+    ctx.driver(drv, ["-out", t1, "-stim", sp, "-random", 40 if ctx.quick else 600, "-conc", 150 if ctx.quick else 2000,
+                     "-gc", 10 if ctx.quick else 200])
     ctx.validate("LimiterTrace", t1, keyfn, describe=describe, timeout=3000, require_events=1000)
     # live listeners: refusals on the wire, isolation between subnets, the address that is charged
     rdrv = vf.build_driver("routerdrv")
@@ -42,6 +47,7 @@ def run(ctx):
     ctx.extra["stimuli_replayed"] = len(stims)
     ctx.assumptions += [
         "virtual time: rates 8/16 per second and arrival times that are multiples of 125 ms keep x/time/rate's float arithmetic exact, so decisions are compared for equality",
+        "bucket collection: gc() is called directly (shim) on histories whose time stamps are relative to the wall clock (first seen two minutes ago, idle 61-110 s, idle 20-50 s, active until now); the specification forgets exactly the buckets whose forgetting is unobservable",
         "the global limiter is golang.org/x/time/rate itself and is modelled (Limiter_MC_global) but not trace-checked here",
         "live part: one flooding subnet per listener kind (udp, tcp, http, gnet, tls, quic) while another subnet stays within its own budget; the limiter hook (under the bucket's lock) gives the charged address and the admitted costs in real time (3 ms tolerance)",
     ]
